@@ -32,7 +32,7 @@ ASSUMPTIONS = [
     'when the creation date is omitted the loaded date must lie inside the '
     'wall-clock window of the write call (only time-related oracle)',
 ]
-REQUIRED = ['loader_load_table', 'loader_parse_table', 'loader_from_hdf5',
+REQUIRED = ['format_fs_writes', 'parse_fs_reads', 'loader_load_table', 'loader_parse_table', 'loader_from_hdf5',
             'loader_from_hdf5_observation_view', 'files_written',
             'layout_csc_seen', 'layout_unsorted_seen', 'nonascii_ids',
             'slash_in_ids_or_categories', 'group_metadata_checked',
@@ -47,6 +47,11 @@ def plan(tier):
 
 def compare_loaded(ctx, name, t2, src, cfg, wr, desc):
     got = snap.snap(t2)
+    cat = cfg.get('custom_category')
+    if cat and name != 'from_hdf5-parse_fs':
+        # written through a custom formatter, read without its parser
+        got.obs_md = _hdf5.undo_custom(got.obs_md, cat)
+        got.samp_md = _hdf5.undo_custom(got.samp_md, cat)
     d = snap.diff(got, src)
     if d:
         raise Violation('C01/roundtrip-differs/' + name, '%s; case=%r' %
@@ -114,13 +119,22 @@ def run_case(ctx, index):
             t4 = ctx.biom.Table.from_hdf5(f)
             compare_loaded(ctx, 'from_hdf5', t4, src, cfg, wr, desc)
             ctx.count('loader_from_hdf5')
+            cat = cfg.get('custom_category')
+            if cat:
+                t6 = ctx.biom.Table.from_hdf5(f, parse_fs={
+                    cat: lambda x: (x.decode('utf8') if isinstance(x, bytes)
+                                    else x)[::-1]})
+                compare_loaded(ctx, 'from_hdf5-parse_fs', t6, src, cfg, wr,
+                               desc)
+                ctx.count('parse_fs_reads')
             t5 = ctx.biom.Table.from_hdf5(f, axis='observation')
             compare_loaded(ctx, 'from_hdf5-observation-view', t5, src, cfg,
                            wr, desc)
             ctx.count('loader_from_hdf5_observation_view')
         if index % 4 == 0:
             # the same file must also satisfy the format (C04's oracle)
-            _hdf5.check_conformance(ctx, path, src, desc, sig='C01/C04')
+            _hdf5.check_conformance(ctx, path, src, desc, sig='C01/C04',
+                                    custom=cfg.get('custom_category'))
     finally:
         if os.path.exists(path):
             os.remove(path)
